@@ -56,7 +56,7 @@ def parseLab? (s : String) : Option Lab :=
 def pcName (p : Pc) : String :=
   match p with
   | .idle => "idle"
-  | .lGet => "lGet" | .lTest => "lTest" | .lAlloc => "lAlloc" | .lInit => "lInit" | .lSetdef => "lSetdef" | .lAcq => "lAcq"
+  | .lGet => "lGet" | .lTest => "lTest" | .lAlloc => "lAlloc" | .lInit => "lInit" | .lSdRead => "lSdRead" | .lSdWrite => "lSdWrite" | .lAcq => "lAcq"
   | .xTouch => "xTouch" | .xLen => "xLen" | .xEvict => "xEvict" | .xRel => "xRel" | .xRet => "xRet"
   | .gAcq => "gAcq" | .gGet => "gGet" | .gTest => "gTest" | .gAlloc => "gAlloc" | .gInit => "gInit"
   | .gCheck => "gCheck" | .gStore => "gStore" | .gRelE => "gRelE" | .gRetE => "gRetE"
@@ -69,7 +69,7 @@ def pcName (p : Pc) : String :=
 list, the store half of `cls.__instance = super().__call__()`, the implicit return after a
 `with` exit on the early-return path) -/
 def minor : Pc → Bool
-  | .lInit | .gInit | .fInit | .uInit | .uStore | .gRetE => true
+  | .lInit | .lSdWrite | .gInit | .fInit | .uInit | .uStore | .gRetE => true
   | _ => false
 
 /-- one statement: a step, then the steps at `minor` pcs that belong to the same statement -/
